@@ -133,13 +133,30 @@ char *igris_u8toa(uint8_t num, char *buf, uint8_t base)
     return igris_u64toa((uint64_t)num, buf, base);
 }
 
+// Value of the digit c, or -1 if c is not a digit of the given base
+// (0-9, then a-z / A-Z for the values 10..35).
+static inline int digit_of_base(char c, uint8_t base)
+{
+    int value;
+
+    if (igris_isdigit(c))
+        value = c - '0';
+    else if (igris_isalpha(c))
+        value = igris_toupper(c) - 'A' + 10;
+    else
+        return -1;
+
+    return value < base ? value : -1;
+}
+
 uint32_t igris_atou32(const char *buf, uint8_t base, char **end)
 {
     uint32_t res = 0;
+    int digit;
 
-    for (char c = *buf; ((c = *buf)) && igris_isxdigit(c); buf++)
+    for (; (digit = digit_of_base(*buf, base)) >= 0; buf++)
     {
-        res = res * base + hex2half(c);
+        res = res * base + (uint32_t)digit;
     }
 
     if (end)
@@ -151,10 +168,11 @@ uint32_t igris_atou32(const char *buf, uint8_t base, char **end)
 uint64_t igris_atou64(const char *buf, uint8_t base, char **end)
 {
     uint64_t res = 0;
+    int digit;
 
-    for (char c = *buf; ((c = *buf)) && igris_isxdigit(c); buf++)
+    for (; (digit = digit_of_base(*buf, base)) >= 0; buf++)
     {
-        res = res * base + hex2half(c);
+        res = res * base + (uint64_t)digit;
     }
 
     if (end)
